@@ -12,6 +12,7 @@ import (
 	"testing/synctest"
 	"time"
 
+	"github.com/grafana/dskit/httpgrpc"
 	"github.com/grafana/dskit/ring"
 
 	"verifharness/rk"
@@ -243,6 +244,9 @@ type stepCase struct {
 	CancelAt   int            `json:"cancel_before_release"` // -1 never
 	Spawner    string         `json:"spawner"`
 	CustomIsCl bool           `json:"custom_is_client_error"`
+	// DeprecatedEntry: the call goes through ring.DoBatch (no options): client-class errors are then those carrying an
+	// HTTP 4xx status (httpgrpc), everything else - 5xx statuses and plain errors - is server-class
+	DeprecatedEntry bool `json:"deprecated_DoBatch_with_default_4xx_classifier"`
 }
 
 type clientErr struct{ id string }
@@ -325,6 +329,35 @@ func runStep(t *testing.T, run *vt.Run, c vt.CaseID, sc stepCase) {
 			synctest.Wait()
 		}
 	}
+	// one error value per replica (identity is compared): harness error types for the custom classifier, HTTP-status
+	// errors and plain errors for the default one
+	errTab := map[string]error{}
+	var errMu sync.Mutex
+	errOf := func(id string, outcome int) error {
+		if outcome == oOK {
+			return nil
+		}
+		errMu.Lock()
+		defer errMu.Unlock()
+		if e, ok := errTab[id]; ok {
+			return e
+		}
+		var e error
+		switch {
+		case !sc.DeprecatedEntry && outcome == oClient:
+			e = clientErr{id}
+		case !sc.DeprecatedEntry:
+			e = serverErr{id}
+		case outcome == oClient:
+			e = httpgrpc.Errorf([]int{400, 404, 429, 499}[len(errTab)%4], "client-class error from %s", id)
+		case len(errTab)%3 == 0:
+			e = fmt.Errorf("plain error from %s", id)
+		default:
+			e = httpgrpc.Errorf([]int{500, 503, 599}[len(errTab)%3], "server-class error from %s", id)
+		}
+		errTab[id] = e
+		return e
+	}
 	callback := func(d ring.InstanceDesc, indexes []int) error {
 		rec := &callRec{id: d.Id, indexes: append([]int(nil), indexes...), start: seq.Add(1)}
 		mu.Lock()
@@ -334,13 +367,7 @@ func runStep(t *testing.T, run *vt.Run, c vt.CaseID, sc stepCase) {
 		if ok {
 			<-g
 		}
-		var err error
-		switch sc.Outcomes[d.Id] {
-		case oClient:
-			err = clientErr{d.Id}
-		case oServer:
-			err = serverErr{d.Id}
-		}
+		err := errOf(d.Id, sc.Outcomes[d.Id])
 		mu.Lock()
 		rec.end = seq.Add(1)
 		mu.Unlock()
@@ -352,7 +379,12 @@ func runStep(t *testing.T, run *vt.Run, c vt.CaseID, sc stepCase) {
 	}
 	retCh := make(chan ret, 2)
 	go func() {
-		err := ring.DoBatchWithOptions(ctx, ring.Write, sh.ring, sh.Keys, callback, opts)
+		var err error
+		if sc.DeprecatedEntry {
+			err = ring.DoBatch(ctx, ring.Write, sh.ring, sh.Keys, callback, opts.Cleanup)
+		} else {
+			err = ring.DoBatchWithOptions(ctx, ring.Write, sh.ring, sh.Keys, callback, opts)
+		}
 		retCh <- ret{err, seq.Add(1)}
 	}()
 	synctest.Wait()
@@ -473,11 +505,8 @@ func runStep(t *testing.T, run *vt.Run, c vt.CaseID, sc stepCase) {
 		close(gates[id])
 		synctest.Wait()
 		answered[id] = sc.Outcomes[id]
-		switch sc.Outcomes[id] {
-		case oClient:
-			errorsSoFar = append(errorsSoFar, clientErr{id})
-		case oServer:
-			errorsSoFar = append(errorsSoFar, serverErr{id})
+		if e := errOf(id, sc.Outcomes[id]); e != nil {
+			errorsSoFar = append(errorsSoFar, e)
 		}
 		wasReturned := returned != nil
 		poll()
@@ -783,6 +812,7 @@ func TestC10(t *testing.T) {
 				if sp == "held" && rng.IntN(2) == 0 {
 					cancelAt = 0
 				}
+				depr := rng.IntN(3) == 0
 				synctest.Test(t, func(t *testing.T) {
 					sh := mk()
 					if sh == nil {
@@ -791,7 +821,7 @@ func TestC10(t *testing.T) {
 					if sh.stop != nil {
 						defer sh.stop()
 					}
-					runStep(t, run, c, stepCase{Shape: sh, Outcomes: e.out, Order: e.order, CancelAt: cancelAt, Spawner: sp})
+					runStep(t, run, c, stepCase{Shape: sh, Outcomes: e.out, Order: e.order, CancelAt: cancelAt, Spawner: sp, DeprecatedEntry: sp == "" && depr})
 				})
 			}
 		}
